@@ -104,7 +104,7 @@ def run(ctx):
             return
         out = run_harness(ctx, hx, ["--count", "0", "--source-escaped", src.replace("\\", "\\\\").replace("\n", "\\n").replace("\t", "\\t")])
     else:
-        n = 600 if ctx.tier == "quick" else 8000
+        n = 600 if ctx.tier == "quick" else 3000
         out = run_harness(ctx, hx, ["--seed", str(ctx.seed), "--count", str(n),
                                     "--corpus", os.path.join(vlib.VERIF, "corpus", "C17")])
     if out is None:
@@ -141,7 +141,7 @@ def analyse(ctx, out):
 
     # ---- (b) skeleton contract tie
     sk_cases = [(q, f"(({o}) : list (list (list N)))") for (_, _, q, o) in sk]
-    fails, err = vlib.coq_eval_cases("c17sk", IMPORT_SK, "obs", "nlist3_eqb", sk_cases, shard=max(40, len(sk_cases) // 16 + 1))
+    fails, err = vlib.coq_eval_cases("c17sk", IMPORT_SK, "obs", "nlist3_eqb", sk_cases, shard=min(150, max(40, len(sk_cases) // 16 + 1)), timeout=1500)
     if err:
         ctx.broken.append("correspondence C17/skeleton: model evaluation failed")
         ctx.log(err[-3000:])
@@ -156,7 +156,7 @@ def analyse(ctx, out):
         sk_bad = {(sk[i][0], sk[i][1]) for i in fails}
     # ---- (c) mono contract tie
     mo_cases = [(f"(({q}) : mprog)", f"(({o}) : mono_obs_t)") for (_, _, q, o) in mo]
-    mfails, err = vlib.coq_eval_cases("c17mo", IMPORT_MO, "mono_obs", "mono_obs_eqb", mo_cases, shard=max(40, len(mo_cases) // 16 + 1))
+    mfails, err = vlib.coq_eval_cases("c17mo", IMPORT_MO, "mono_obs", "mono_obs_eqb", mo_cases, shard=min(150, max(40, len(mo_cases) // 16 + 1)), timeout=1500)
     if err:
         ctx.broken.append("correspondence C17/mono: model evaluation failed")
         ctx.log(err[-3000:])
